@@ -69,6 +69,11 @@ class ExprMixin:
             return VFunc("builtin", name)
         if name in ("True", "False"):
             return VBool(name == "True")
+        if p.spec:
+            # contract clauses may name a class of another repository module (unique class name)
+            cands = [ci for ci in self.prog.classes.values() if ci.name == name]
+            if len(cands) == 1:
+                return VClass(cands[0])
         raise Unsupported(f"unknown name {name!r} in {module}")
 
     # ------------------------------------------------------------------ main evaluator
